@@ -118,3 +118,64 @@ fn k_c18_transient_empty_noop() {
     kani::cover!(true);
     std::mem::forget(r);
 }
+
+
+// ---------------------------------------------------------------- inductive step
+/// Representation invariant of TransientSource relative to the parent's registration `P`:
+///   Keep(c): c registered == P            Register(c): c not registered
+///   Disable(c): c registered == P         Disabled(c): c not registered
+///   Remove(c): c registered == P          Replace{new, old}: new not registered, old registered == P
+///   None: -
+/// (`dirty` = a re-registration is owed; in Disable/Remove/Replace states one always is.)
+/// From ANY state satisfying it, one symbolic protocol operation re-establishes it, the child
+/// mock sees no protocol breach, and only Continue|Reregister is returned.  From<T> and Default
+/// satisfy it with P = false, so it holds after every protocol-following history.
+fn child(id: u8, registered: bool) -> Child { unsafe { if registered { LIVE_REG += 1; } } Child { id, registered, ret: PostAction::Continue } }
+
+fn inv_ok(ts: &TransientSource<Child>, p: bool) -> bool {
+    match &ts.state {
+        TransientSourceState::Keep(c) | TransientSourceState::Disable(c) | TransientSourceState::Remove(c) => c.registered == p,
+        TransientSourceState::Register(c) | TransientSourceState::Disabled(c) => !c.registered,
+        TransientSourceState::Replace { new, old } => !new.registered && old.registered == p,
+        TransientSourceState::None => true,
+    }
+}
+fn owes_reregistration(ts: &TransientSource<Child>, parent: bool) -> bool {
+    // a child waiting to be registered under a REGISTERED parent only arises from replace() on a
+    // disabled child, i.e. with a re-registration owed (under an unregistered parent the next
+    // parent register() does it)
+    matches!(&ts.state, TransientSourceState::Disable(_) | TransientSourceState::Remove(_) | TransientSourceState::Replace { .. })
+        || (parent && matches!(&ts.state, TransientSourceState::Register(_)))
+}
+
+macro_rules! ts_inductive { ($($name:ident: $mk:expr;)*) => { $(
+#[kani::proof]
+#[kani::unwind(3)]
+fn $name() {
+    let mut poll = match Poll::new() { Ok(p) => p, Err(e) => { std::mem::forget(e); return; } };
+    let tok = TokenInner::from(0x0000_0001_0000_0000usize);
+    let mut fac = TokenFactory::new(tok);
+    let mut parent: bool = kani::any();
+    let mk: fn(bool) -> TransientSourceState<Child> = $mk;
+    let mut ts = TransientSource { state: mk(parent) };
+    kani::assume(inv_ok(&ts, parent));
+    let mut dirty = owes_reregistration(&ts, parent) || kani::any::<bool>();
+    let mut next_id: u8 = 5;
+    let mut cur: u8 = ts.map(|c| c.id).unwrap_or(0);
+    ts_step!(ts, poll, fac, tok, parent, dirty, next_id, cur);
+    assert!(inv_ok(&ts, parent), "C18.ind.invariant_reestablished");
+    if owes_reregistration(&ts, parent) { assert!(dirty, "C18.ind.pending_change_owes_reregistration"); }
+    kani::cover!(parent);
+    kani::cover!(!parent);
+    std::mem::forget(ts); std::mem::forget(poll);
+}
+)* } }
+ts_inductive! {
+    k_c18_ind_keep: |p| TransientSourceState::Keep(child(1, p));
+    k_c18_ind_register: |_p| TransientSourceState::Register(child(1, false));
+    k_c18_ind_disable: |p| TransientSourceState::Disable(child(1, p));
+    k_c18_ind_disabled: |_p| TransientSourceState::Disabled(child(1, false));
+    k_c18_ind_remove: |p| TransientSourceState::Remove(child(1, p));
+    k_c18_ind_replace: |p| TransientSourceState::Replace { new: child(2, false), old: child(1, p) };
+    k_c18_ind_none: |_p| TransientSourceState::None;
+}
